@@ -570,8 +570,10 @@ def st_case(draw, profile):
         case['buffer'] = 0  # must be rejected (or, if accepted, still obey the bound)
     elif profile == 'readahead' and kind in ('pf', 'pm', 'lpm') and w >= 2 and draw(st.integers(0, 7)) == 0:
         case['buffer'] = w - 1  # fewer buffer slots than workers: rejected, or the bound of the REQUESTED size holds
-    if kind == 'lpm' and profile in ('readahead', 'plain', 'fault') and draw(st.integers(0, 5)) == 0:
-        # backend=False (no pool, everything in the consumer): any buffer size >= 1 is legal, also below max_workers
+    if kind == 'lpm' and profile in ('readahead', 'plain') and draw(st.integers(0, 5)) == 0:
+        # backend=False (no pool, everything in the consumer): any buffer size >= 1 is legal, also below max_workers.
+        # Not in the fault profile: nothing runs in the background there, and a failing function indeed loses the
+        # results buffered before it (observed, outside C06's statement)
         case['serial'] = True
         if profile == 'readahead':
             case['buffer'] = draw(st.integers(1, max(1, w)))
